@@ -27,6 +27,7 @@ import (
 //     exactly that type.
 
 func findFuncDecl(pk *packages.Package, name string) *ast.FuncDecl {
+	name = core.CurrentName(pk.Name, name) // a renamed function keeps answering to the name the rules know
 	for _, file := range pk.Syntax {
 		for _, d := range file.Decls {
 			if f, ok := d.(*ast.FuncDecl); ok && f.Name.Name == name {
@@ -212,7 +213,7 @@ func R11(p *core.Prog) *core.Result {
 		}
 		sort.Strings(missing)
 		if len(missing) == 0 {
-			r.Ok(".TOTAL", pos, fmt.Sprintf("%s covers all %d constants of %s", key, len(declared), named.Obj().Name()))
+			r.Ok(".TOTAL", pos, fmt.Sprintf("%s covers all %d constants of %s", key, len(declared), core.TypeName(named)))
 		} else {
 			r.Fail(".TOTAL", key, pos, fmt.Sprintf("%s neither covers %s nor has a default arm that yields an error", key, strings.Join(missing, ",")), "")
 		}
